@@ -23,7 +23,8 @@ static inline void ythread_callback_yield_impl(void *arg,
 {
     ABTI_ythread *p_prev = (ABTI_ythread *)arg;
     ABTI_VERIF_POINT(ABTI_VERIF_P_YIELD_SAVED);
-    if (ABTI_thread_handle_request(&p_prev->thread, ABT_TRUE) &
+    if (ABTI_thread_handle_request(p_prev->thread.p_last_xstream,
+                                   &p_prev->thread, ABT_TRUE) &
         ABTI_THREAD_HANDLE_REQUEST_CANCELLED) {
         /* p_prev is terminated. */
     } else {
@@ -67,7 +68,8 @@ void ABTI_ythread_callback_thread_yield_to(void *arg)
      * that has been pushed by ABTI_pool_add_thread() and change
      * p_prev->thread.p_pool by ABT_unit_set_associated_pool(). */
     ABTI_pool *p_pool = p_prev->thread.p_pool;
-    if (ABTI_thread_handle_request(&p_prev->thread, ABT_TRUE) &
+    if (ABTI_thread_handle_request(p_prev->thread.p_last_xstream,
+                                   &p_prev->thread, ABT_TRUE) &
         ABTI_THREAD_HANDLE_REQUEST_CANCELLED) {
         /* p_prev is terminated. */
     } else {
@@ -89,7 +91,8 @@ void ABTI_ythread_callback_resume_yield_to(void *arg)
      * access it after that ULT becomes resumable. */
     ABTI_ythread *p_prev = p_arg->p_prev;
     ABTI_ythread *p_next = p_arg->p_next;
-    if (ABTI_thread_handle_request(&p_prev->thread, ABT_TRUE) &
+    if (ABTI_thread_handle_request(p_prev->thread.p_last_xstream,
+                                   &p_prev->thread, ABT_TRUE) &
         ABTI_THREAD_HANDLE_REQUEST_CANCELLED) {
         /* p_prev is terminated. */
     } else {
@@ -110,7 +113,8 @@ static inline void ythread_suspend_handle_request(ABTI_ythread *p_prev,
                                                   ABTI_pool *p_counted_pool)
 {
     /* Request handling.  p_prev->thread.p_pool might be changed. */
-    ABTI_thread_handle_request(&p_prev->thread, ABT_FALSE);
+    ABTI_thread_handle_request(p_prev->thread.p_last_xstream, &p_prev->thread,
+                               ABT_FALSE);
     ABTI_pool *p_new_pool = p_prev->thread.p_pool;
     if (ABTU_unlikely(p_new_pool != p_counted_pool)) {
         ABTI_pool_inc_num_blocked(p_new_pool);
